@@ -24,8 +24,8 @@ theorem C12_partial (bs : Bytes) (strip : Nat) (wh : Bool) (p : Patch) (h : pars
 
 /-- writing depends only on what `SamePatch` compares, so writing the re-parsed patch reproduces the
 written form byte for byte -/
-theorem C12_fixpoint (p p' : Patch) (h : SamePatch p p') : writePatch p' = writePatch p := by
-  sorry
+theorem C12_fixpoint (p p' : Patch) (h : SamePatch p p') : writePatch p' = writePatch p :=
+  writePatch_same p p' h
 
 /-- the excluded class is real: `diff --git a b` / `copy from a` / `copy to b` parses to one hunk-less
 file patch; its written form parses to none. -/
@@ -33,7 +33,15 @@ def witnessNoop : Bytes :=
   [100,105,102,102,32,45,45,103,105,116,32,97,32,98,10, 99,111,112,121,32,102,114,111,109,32,97,10, 99,111,112,121,32,116,111,32,98,10]
 
 theorem C12_full_false : ¬ C12_full := by
-  sorry
+  intro hfull
+  have w1 : parsePatch witnessNoop 0 true =
+      .ok { header := [], fps := [{ kind := .modify, old := some [97], new := some [98] }] } := by rfl
+  obtain ⟨p', hp', hs, _⟩ := hfull witnessNoop 0 true _ w1
+  have w2 : parsePatch (writePatch { header := [], fps := [{ kind := .modify, old := some [97], new := some [98] }] }) 0 true
+      = .ok { header := [], fps := [] } := by rfl
+  rw [w2] at hp'
+  cases hp'
+  exact hs.2
 
 #print axioms C12_partial
 #print axioms C12_fixpoint
